@@ -31,20 +31,33 @@ use crate::props::common::*;
 pub struct Case {
     pub circuit: RawCircuit,
     pub outer_keccak: bool,
+    /// raw choices for the outer circuit's own FRI parameters (independent of the inner ones)
+    pub outer_fri: (u16, u16, u16, u16),
     pub edits: Vec<RawEdit>,
 }
 
 fn case(max_ops: usize, n: usize) -> BoxedStrategy<Case> {
-    bx((raw_circuit(max_ops), prop::bool::weighted(0.25), prop::collection::vec(raw_edit(), n..=n)).prop_map(|(mut circuit, outer_keccak, edits)| {
-        circuit.config.keccak = false; // the inner hasher must be algebraic
-        Case { circuit, outer_keccak, edits }
-    }))
+    bx((
+        raw_circuit(max_ops),
+        prop::bool::weighted(0.25),
+        (any::<u16>(), any::<u16>(), any::<u16>(), any::<u16>()),
+        prop::collection::vec(raw_edit(), n..=n),
+    )
+        .prop_map(|(mut circuit, outer_keccak, outer_fri, edits)| {
+            circuit.config.keccak = false; // the inner hasher must be algebraic
+            Case {
+                circuit,
+                outer_keccak,
+                outer_fri,
+                edits,
+            }
+        }))
 }
 
 pub fn limits() -> ConfigLimits {
     ConfigLimits {
         min_queries: 1,
-        max_queries: 7,
+        max_queries: 10,
         max_queries_zk: 3,
         max_pow: 6,
         allow_keccak: false,
@@ -61,7 +74,24 @@ pub struct Outer<OC: GenericConfig<D, F = F>> {
 
 /// Build the outer circuit verifying proofs of `inner`.
 pub fn build_outer<OC: GenericConfig<D, F = F>>(inner: &CircuitData<F, PC, D>) -> Outer<OC> {
-    let config = CircuitConfig::standard_recursion_config();
+    build_outer_with::<OC>(inner, CircuitConfig::standard_recursion_config())
+}
+
+/// The standard recursion config with its own, generated FRI numbers (queries 1..=28, rate 3/4, cap 0..=4,
+/// grinding 0..=10) — deliberately independent of the inner proof's parameters.
+pub fn outer_config(raw: (u16, u16, u16, u16), inner_queries: usize) -> CircuitConfig {
+    use crate::engine::frac;
+    let mut c = CircuitConfig::standard_recursion_config();
+    // half of the cases: no more query rounds than the inner proof has (often strictly fewer)
+    c.fri_config.num_query_rounds = if raw.0 & 1 == 1 { 1 + frac(raw.0, inner_queries.max(1)) } else { 1 + frac(raw.0, 28) };
+    c.fri_config.rate_bits = [3, 4][frac(raw.1, 2)];
+    c.fri_config.cap_height = frac(raw.2, 5);
+    c.fri_config.proof_of_work_bits = frac(raw.3, 11) as u32;
+    c.security_bits = (c.fri_config.num_query_rounds * c.fri_config.rate_bits + c.fri_config.proof_of_work_bits as usize).min(100);
+    c
+}
+
+pub fn build_outer_with<OC: GenericConfig<D, F = F>>(inner: &CircuitData<F, PC, D>, config: CircuitConfig) -> Outer<OC> {
     let mut builder = CircuitBuilder::<F, D>::new(config);
     let pt = builder.add_virtual_proof_with_pis(&inner.common);
     let vdt = builder.add_virtual_verifier_data(inner.common.config.fri_config.cap_height);
@@ -124,7 +154,9 @@ where
     let pr = prove_case::<PC>(&c.circuit, &opts, &limits(), st)?;
     let inner = &pr.built.data;
     let chash = hash_of(&c.circuit);
-    let outer = catch(|| build_outer::<OC>(inner)).map_err(|p| format!("building the outer verifier circuit PANICKED: {} [inner config {:?}]", p, pr.built.config))?;
+    let oconf = outer_config(c.outer_fri, pr.built.config.fri_config.num_query_rounds);
+    st.label(if oconf.fri_config.num_query_rounds < pr.built.config.fri_config.num_query_rounds { "outer_fewer_queries_than_inner" } else { "outer_ge_queries" });
+    let outer = catch(|| build_outer_with::<OC>(inner, oconf.clone())).map_err(|p| format!("building the outer verifier circuit PANICKED: {} [inner config {:?}]", p, pr.built.config))?;
     st.label(&format!("outer_degree_bits{}", outer.data.common.degree_bits()));
     st.label(if c.outer_keccak { "outer_keccak" } else { "outer_poseidon" });
 
@@ -276,7 +308,7 @@ pub fn run(ctx: &mut Ctx) {
         .into();
     ctx.assumptions.push("the satisfaction oracle trusts each gate's eval_unfiltered (C07); on a sample of rejected cases the real outer prover is run and its proof must not verify".into());
     ctx.shrink_iters = 20;
-    let (n, e) = ctx.tier.pick((28, 40), (400, 300));
+    let (n, e) = ctx.tier.pick((56, 40), (600, 300));
     let max_ops = ctx.tier.pick(8, 25);
     ctx.run_sub("recursive_verifier", n, 14, move || case(max_ops, e), prop);
 }
